@@ -74,6 +74,7 @@ Definition target_host (akind seed : N) : option host :=
   | 14 => Some (HostV6 (65535 * 2^32 + ip_203))                              (* ::ffff:203.0.113.77 *)
   | 15 => Some (HostDomain [50;48;51;46;48;46;49;49;51;46;55;55])          (* "203.0.113.77" *)
   | 30 | 31 | 32 => Some (HostDomain (dns_name akind seed))
+  | 33 => Some (HostDomain [58;58;49;37;108;111])                           (* "::1%lo": a zoned literal *)
   | _ => None
   end.
 Definition target_addr (akind port seed : N) : option saddr :=
@@ -100,6 +101,7 @@ Definition resolved_of (k : ckind) : list ip :=
   | CHonest _ _ _ 30 _ _ _ _ => [V16 1; V4 ip_203]          (* AAAA ::1 and A 203.0.113.77, in either order *)
   | CHonest _ _ _ 31 _ _ _ _ => [V4 ip_10; V4 ip_203]
   | CHonest _ _ _ 32 _ _ _ _ => [V4 ip_203]                 (* what the FIRST look-up answers *)
+  | CHonest _ _ _ 33 _ _ _ _ => [V16 1]                      (* the zoned literal is ::1 *)
   | _ => [V4 (127 * 2^24 + 1)]
   end.
 
